@@ -580,3 +580,110 @@ def trace_param(prog: Program, caller: FunctionInfo, callee_fq: str, param: str,
 
 def calls_transitively(prog: Program, effects: T.Any, caller_fq: str, callee_fq: str) -> bool:
     return callee_fq in effects.reachable_functions([caller_fq])
+
+
+def loop_as_listcomp(fn: FunctionInfo, name: str, prog: T.Optional[Program] = None) -> T.Optional[ast.ListComp]:
+    """Recognise the accumulator idiom
+           name = []            (or: name: List[..] = [])
+           for T in IT: [local assignments]; [if COND:] name.append(E)
+       and return the equivalent  [E for T in IT if COND]  with loop-local single assignments inlined."""
+    defs = local_defs(fn, name)
+    if len(defs) != 1 or not (isinstance(defs[0][1], ast.List) and not defs[0][1].elts or
+                              (isinstance(defs[0][1], ast.Call) and unparse(defs[0][1].func) == "list" and not defs[0][1].args)):
+        return None
+    appends = [c for c in ast.walk(fn.node) if isinstance(c, ast.Call) and isinstance(c.func, ast.Attribute) and c.func.attr == "append"
+               and unparse(c.func.value) == name and len(c.args) == 1]
+    others = [c for c in ast.walk(fn.node) if isinstance(c, ast.Call) and isinstance(c.func, ast.Attribute) and unparse(c.func.value) == name
+              and c.func.attr in ("extend", "insert", "pop", "remove", "clear", "sort", "reverse")]
+    if len(appends) != 1 or others:
+        return None
+    app = appends[0]
+    # path from the function body to the append: For loops and If tests
+    gens: T.List[ast.comprehension] = []
+    conds: T.List[ast.AST] = []
+
+    def find(stmts: T.List[ast.stmt]) -> bool:
+        for st in stmts:
+            if isinstance(st, ast.Expr) and st.value is app:
+                return True
+            if isinstance(st, ast.For):
+                gens.append(ast.comprehension(target=st.target, iter=st.iter, ifs=[], is_async=0))
+                if find(st.body):
+                    return True
+                gens.pop()
+            elif isinstance(st, ast.If):
+                conds.append(st.test)
+                if find(st.body):
+                    return True
+                conds.pop()
+                neg = ast.UnaryOp(op=ast.Not(), operand=st.test)
+                conds.append(neg)
+                if find(st.orelse):
+                    return True
+                conds.pop()
+        return False
+
+    if not find(fn.node.body) or not gens:
+        return None
+    # `continue` guards before the append in the innermost loop body are not modelled
+    for n in ast.walk(fn.node):
+        if isinstance(n, (ast.Continue, ast.Break)):
+            return None
+    elt = inline(fn, app.args[0], prog, consts=False)
+    gens[-1].ifs = [inline(fn, c, prog, consts=False) for c in conds]
+    gens = [ast.comprehension(target=g.target, iter=inline(fn, g.iter, prog, consts=False), ifs=g.ifs, is_async=0) for g in gens]
+    return ast.fix_missing_locations(ast.ListComp(elt=elt, generators=gens))
+
+
+def semantic_bf(cond: T.Any, fn: FunctionInfo, classify: T.Callable[[ast.AST], T.Tuple[str, bool]], prog: T.Optional[Program] = None) -> T.Any:
+    """Re-express a BF over source atoms as a BF over classified leaves: every atom is parsed, its
+    single-assignment locals are inlined, and its boolean structure is mapped with `classify`."""
+    from .boolfn import BF
+    c = cond.drop_unused()
+    leaf: T.Dict[str, T.Any] = {}
+    for a in c.atoms:
+        tree = inline(fn, ast.parse(a, mode="eval").body, prog, consts=False)
+        leaf[a] = bool_expr_bf(tree, classify)
+    out = BF.false()
+    n = len(c.atoms)
+    for i in range(1 << n):
+        if (c.bits >> i) & 1:
+            term = BF.true()
+            for j, a in enumerate(c.atoms):
+                term = term & (leaf[a] if (i >> j) & 1 else ~leaf[a])
+            out = out | term
+    return out
+
+
+def open_sites_through_helpers(prog: Program, effects: T.Any, fn: FunctionInfo, depth: int = 2) -> T.List[T.Tuple[ast.Call, FunctionInfo, ast.AST, T.Dict[str, str]]]:
+    """Text/binary open() sites executed by fn directly or through private helpers of its own module:
+    [(open call, function containing it, opened-path expression in fn's vocabulary (inlined), keyword texts)]."""
+    import copy
+    out: T.List[T.Tuple[ast.Call, FunctionInfo, ast.AST, T.Dict[str, str]]] = []
+    for s in effects.sites.get(fn.fq, []):
+        if s.detail.get("via") == "open" and isinstance(s.node, ast.Call):
+            c = s.node
+            path = c.func.value if isinstance(c.func, ast.Attribute) and c.func.attr == "open" and unparse(c.func) not in ("io.open", "codecs.open") else (c.args[0] if c.args else None)
+            if path is None:
+                continue
+            kws = {kw.arg: unparse(kw.value) for kw in c.keywords if kw.arg}
+            mode, _n = None, None
+            out.append((c, fn, inline(fn, path, prog, consts=False), kws))
+    if depth <= 0:
+        return out
+    for call, t in prog.calls_in(fn):
+        if t.kind != "func" or t.fn is None or t.fn.fq == fn.fq or t.fn.module.name != fn.module.name or t.fn.is_generator:
+            continue
+        h = t.fn
+        for c, owner, pexpr, kws in open_sites_through_helpers(prog, effects, h, depth - 1):
+            mapping: T.Dict[str, ast.AST] = {}
+            for p in h.all_params:
+                a = call_arg(call, h, p)
+                if a is not None:
+                    mapping[p] = a
+
+            class Sub(ast.NodeTransformer):
+                def visit_Name(self, node: ast.Name) -> ast.AST:
+                    return copy.deepcopy(mapping[node.id]) if node.id in mapping else node
+            out.append((c, owner, inline(fn, Sub().visit(copy.deepcopy(pexpr)), prog, consts=False), kws))
+    return out
